@@ -90,6 +90,27 @@ def run_one(ck, prog):
             r = cfg.reachable_from(0, avoid_edges=cut)
             ck.ob("C11.2", f"{name}|length-checked-before-read", bb not in r, fn=fn["path"], site=ctx.site(bb),
                   detail="a byte is read through a pointer taken from a &str/&[u8] before any comparison with that slice's length: for an empty argument this reads one byte past it")
+            # ... and again after every update of the index: between each assignment of the index variable and the read
+            # there must be a comparison with the length (a check made BEFORE the increment says nothing about the new index)
+            idx_locals = set()
+            for x in walk_deep(e, ctx.prov):
+                if x[0] == "call" and (x[1] or "").endswith("::add") and len(x[2]) == 2:
+                    iv = strip_casts(x[2][1])
+                    if isinstance(iv, tuple) and iv[0] == "var":
+                        idx_locals.add(iv[1])
+            stale = []
+            for l in idx_locals:
+                for (dbb, didx) in ctx.prov.defs.get((l, None), []):
+                    # from just after the definition: successors of the defining block (the def is at the end of its block's work)
+                    starts = [ed.dst for ed in cfg.succ[dbb] if (ed.src, ed.dst) not in cut]
+                    reach = set()
+                    for st in starts:
+                        reach |= cfg.reachable_from(st, avoid_edges=cut)
+                    # a definition in the same block as a later cut edge is covered by the cut
+                    if bb in reach:
+                        stale.append(dbb)
+            ck.ob("C11.2", f"{name}|length-rechecked-after-index-update", not stale, fn=fn["path"], site=ctx.site(bb),
+                  detail="the index is advanced and the next byte is read without comparing the NEW index with the slice's length: when the argument is a complete prefix the read lands one byte past it")
 
     # ---- C11.3 needle shape ------------------------------------------------------------------------------------------
     fn = prog.fns.get(M + "UnixStr::find")
@@ -119,6 +140,8 @@ def run_one(ck, prog):
             ok = isinstance(a, tuple) and a[0] == "param"
             ck.ob("C11.3", "find_buf-passes-bytes-unchanged", ok, fn=fb["path"], site=ctx.site(bb), detail=f"find_buf must search for exactly the caller's bytes, passes {show(a)}")
 
+    check_scan_step(ck, prog)
+
     # ---- C11.4 split points --------------------------------------------------------------------------------------------
     pf = prog.fns.get(M + "UnixStr::path_file_name")
     if ck.anchor("C11.4", "path_file_name", pf):
@@ -138,3 +161,46 @@ def run_one(ck, prog):
               detail="path_file_name must return the suffix starting at (index of the separator found scanning from the back) + 1")
         revs = [bb for bb, t in ctx.cfg.calls(lambda t: (t.get("callee") or "").endswith("Iterator::rev"))]
         ck.ob("C11.4", "file-name-scans-from-the-back", len(revs) == 1, fn=pf["path"], detail="the separator must be searched from the end (last separator)")
+
+
+def check_scan_step(ck, prog):
+    """C11.5: the searcher examines every start position: the index it compares the first needle byte at is delivered by a
+    Range over 0..haystack.len() (step one by construction) or is a counter whose every update inside the loop is `+ 1`."""
+    fn = prog.fns.get(M + "buf_find")
+    if not ck.anchor("C11.5", "buf_find", fn):
+        return
+    ctx = prog.ctx(fn)
+    cfg = ctx.cfg
+    # the bounds-checked index into parameter 1 (this_buf)
+    idxs = []
+    for b in fn["blocks"]:
+        if b.get("cleanup") or b["id"] not in cfg.live_blocks():
+            continue
+        t = b["term"]
+        if t["k"] == "assert" and t["msg"] == "bounds":
+            at = (b["id"], len(b["stmts"]))
+            ln, ix = ctx.prov.operand(t["ops"][0], at), ctx.prov.operand(t["ops"][1], at)
+            if "p1" in canon(ln) and "p2" not in canon(ln):
+                idxs.append((b["id"], ix))
+    ck.ob("C11.5", "anchor|haystack-index", len(idxs) >= 1, fn=fn["path"], detail="no indexed access of the haystack found")
+    for bb, ix in idxs[:1]:
+        ixs = strip_casts(ix)
+        ok = False
+        why = ""
+        if any(x[0] == "agg" and str(x[1]).endswith("ops::range::Range") for x in walk_deep(ix, ctx.prov)) and any(x[0] == "call" and (x[1] or "").endswith("Iterator::next") for x in walk_deep(ix, ctx.prov)):
+            rng = [x for x in walk_deep(ix, ctx.prov) if x[0] == "agg" and str(x[1]).endswith("ops::range::Range")][0]
+            ok = fold(rng[3][0]) == 0 and "p1" in canon(rng[3][1])
+            why = "range over the haystack"
+        elif isinstance(ixs, tuple) and ixs[0] == "var":
+            defs = ctx.prov.expand(ixs)
+            ok = True
+            for d in defs:
+                ds = strip_casts(d)
+                if fold(ds) == 0:
+                    continue
+                if isinstance(ds, tuple) and ds[0] == "bin" and ds[1] == "Add" and fold(ds[3]) == 1 and isinstance(strip_casts(ds[2]), tuple) and strip_casts(ds[2])[0] == "var" and strip_casts(ds[2])[1] == ixs[1]:
+                    continue
+                ok = False
+                why = f"the scan position is updated with {show(d)}"
+        ck.ob("C11.5", "scan-advances-one-position-at-a-time", ok, fn=fn["path"], site=ctx.site(bb),
+              detail=f"the search must try every start position in order (first occurrence): {why or 'the start index is neither a 0..len range nor a +1 counter'}; skipping ahead after a partial match misses overlapping occurrences (\"aaab\".find(\"aab\"))")
